@@ -17,11 +17,11 @@ func init() {
 
 type c14X struct {
 	B     string `json:"b"`
-	C     int    `json:"c"`     // cursor (rune index)
-	Setup int    `json:"setup"` // tokens that build B and place the cursor
+	C     int    `json:"c"`              // cursor (rune index)
+	Setup int    `json:"setup"`          // tokens that build B and place the cursor
 	Warm  int    `json:"warm,omitempty"` // tokens of an earlier Readline call of the same shell in which a candidate was selected and accepted
-	Abort int    `json:"abort"` // token index of the C-c (or -1)
-	Probe int    `json:"probe"` // token index of the character typed after the abort (or -1)
+	Abort int    `json:"abort"`          // token index of the C-c (or -1)
+	Probe int    `json:"probe"`          // token index of the character typed after the abort (or -1)
 }
 
 func genC14(g *Gen, tier string, idx int) *wire.Scenario {
@@ -353,6 +353,7 @@ type c15X struct {
 	Prefix string `json:"prefix"`
 	Setup  int    `json:"setup"`
 	Dir    string `json:"dir"` // forward | backward | mixed
+	Warm   int    `json:"warm,omitempty"` // tokens of an earlier Readline call of the same shell
 }
 
 func genC15(g *Gen, tier string, idx int) *wire.Scenario {
@@ -409,9 +410,27 @@ func genC15(g *Gen, tier string, idx int) *wire.Scenario {
 		}
 		spec.Cands = append(spec.Cands, c)
 	}
+	if x.Prefix != "" && g.P(20) {
+		// the typed word is as long as one of the candidates and differs from it by case only
+		// (case-insensitive matching): that candidate is part of the cycle like any other
+		v := strings.ToUpper(x.Prefix)
+		if !seen[v] {
+			seen[v] = true
+			spec.Cands = append(spec.Cands, wire.Cand{Value: v, Tag: spec.Cands[len(spec.Cands)-1].Tag})
+			env.Inputrc = append(env.Inputrc, "set completion-ignore-case on")
+		}
+	}
 	env.Comp = spec
 	env.Binds = g.Cat.Extra
 	sc.Env = env
+	if g.P(15) {
+		// the shell has completed something before: an earlier Readline call selects a candidate and accepts the line
+		for _, r := range "cmd " {
+			sc.Script = append(sc.Script, tok(string(r), "self-insert"))
+		}
+		sc.Script = append(sc.Script, tok(g.Cat.ShortSeqFor(km, "menu-complete"), "menu-complete"), tok("\r", "accept-line"))
+		x.Warm = len(sc.Script)
+	}
 	for _, r := range "cmd " + x.Prefix {
 		sc.Script = append(sc.Script, tok(string(r), "self-insert"))
 	}
@@ -451,13 +470,22 @@ func execC15(x *Ctx, sc *wire.Scenario) *wire.Result {
 	res := okResult(sc)
 	var xx c15X
 	jsonInto(sc.X, &xx)
-	out := runSession(x, sc, sc.Plan, sim.Hooks{}, false)
+	hooks := sim.Hooks{}
+	warmCalls := 0
+	if xx.Warm > 0 {
+		warmCalls = 1
+		hooks.Body = func(s *sim.Session, sh *readlineShell) {
+			s.Readline(sh)
+			s.Readline(sh)
+		}
+	}
+	out := runSession(x, sc, sc.Plan, hooks, false)
 	absorb(res, out)
 	if out.End == "PANIC" || out.End == "DEADLOCK" || out.End == "LIVELOCK" {
 		res.Counters["skipped:crash"]++
 		return res
 	}
-	if len(out.Returns) > 0 {
+	if len(out.Returns) != warmCalls {
 		res.Counters["skipped:returned"]++
 		return res
 	}
